@@ -4,7 +4,7 @@
 set -u
 P=$1; I=$2; shift 2
 CHECKS=${@:-$P}
-OUT=/tmp/wt/out_$P
+OUT=/tmp/wt/out_$P; [ -d "$OUT" ] || OUT=/verif/seeded/_candidates/out_$P
 NAME=${P}_$I
 D=$(mktemp -d /tmp/seed_XXXXXX)
 rsync -a --exclude .git --exclude tests/output /repo/ "$D/"
